@@ -54,7 +54,7 @@ enum Place {
 }
 
 /// One window program. Base relation: `from t | select {a, b}` (closed) or `from t` (open).
-fn gen(c: &mut Ctx, tier: Tier) -> Option<Program> {
+pub fn gen(c: &mut Ctx, tier: Tier) -> Option<Program> {
     let open = tier == Tier::Thorough && c.flag("open-source");
     let places: &[Place] = match tier {
         Tier::Quick => &[Place::Derive, Place::Filter, Place::AfterPlainAggregate, Place::AfterDistinct],
